@@ -199,6 +199,51 @@ class Ctx:
         self.results.append(res)
         return res
 
+    def run_miri(self, n, tag="miri-pure", timeout=5400):
+        """Runs the `miri-pure` workload of the harness (FFI buffer handling around ffi::hash, byte codecs, graph
+        operators) under the Miri interpreter. Undefined behaviour reported by Miri is a violation."""
+        env = self.base_env()
+        env["MIRIFLAGS"] = "-Zmiri-disable-isolation"
+        env["RUSTFLAGS"] = "--cfg zerokit_verif"
+        tdir = os.path.join(self.harness, "target-miri")
+        cmd = ["cargo", "+nightly", "miri", "run", "--offline", "--no-default-features", "--features", "pm",
+               "--manifest-path", os.path.join(self.harness, "Cargo.toml"), "--target-dir", tdir, "--", "miri-pure", str(n)]
+        t = time.time()
+        try:
+            p = subprocess.run(cmd, env=env, stdout=subprocess.PIPE, stderr=subprocess.PIPE, text=True, timeout=timeout, errors="replace")
+        except subprocess.TimeoutExpired:
+            self.inconclusive.append("watchdog: miri run did not finish in %ds" % timeout)
+            return None
+        res = {"_step": tag, "evaluations": 0, "strata_all": [], "violations": [], "samples": [], "counters": {"miri_runs": 1},
+               "notes": {}, "_secs": round(time.time() - t, 1),
+               "rule": "Miri: FFI buffer handling around ffi::hash (raw pointers, leaked output), byte codecs and graph operators on boundary operands interpreted with undefined-behaviour checks"}
+        import re
+        m = re.search(r"MIRI-PURE-OK (\d+)", p.stdout)
+        if "Undefined Behavior" in p.stderr or "error: unsupported operation" in p.stderr and not m:
+            i = p.stderr.find("Undefined Behavior")
+            txt = p.stderr[max(0, i - 200): i + 2500] if i >= 0 else p.stderr[-2500:]
+            kind = "undefined-behavior" if i >= 0 else "unsupported-operation"
+            if kind == "undefined-behavior":
+                frame = ""
+                mm = re.search(r"(/repo/[^ :]+)", txt)
+                if mm:
+                    frame = mm.group(1).split("/src/")[-1]
+                res["violations"].append({"sig": "miri:undefined-behavior:%s" % frame, "count": 1, "details": [{"report": txt}]})
+            else:
+                self.inconclusive.append("miri: unsupported operation: %s" % txt[-400:])
+                return None
+        elif "MIRI-PURE-MISMATCH" in p.stdout:
+            res["violations"].append({"sig": "miri:result-mismatch", "count": 1, "details": [{"stdout": p.stdout[-500:]}]})
+        elif m:
+            res["evaluations"] = int(m.group(1))
+            res["strata_all"] = ["miri|ffi::hash", "miri|codecs", "miri|graph-operators"]
+            res["samples"] = [{"miri": "MIRI-PURE-OK %s evaluations, no undefined behaviour reported" % m.group(1)}]
+        else:
+            self.inconclusive.append("miri step failed: %s" % p.stderr[-600:])
+            return None
+        self.results.append(res)
+        return res
+
     def run_py(self, script, args, tag, timeout=3600):
         out = os.path.join(self.run_dir, "result-%s-%d.json" % (tag, len(self.results)))
         cmd = [sys.executable, os.path.join(self.verif, "oracles", script)] + [a.replace("{out}", out) for a in args]
